@@ -12,7 +12,7 @@ import sys
 ROOT = os.path.dirname(os.path.dirname(os.path.abspath(__file__)))
 # changes whose effect lies (also) in the territory of another property: the checks that are run in addition to the property's own
 ALSO = {"C04-e": ["C12"], "C08-c": ["C14"], "C10-a": ["C11"], "C10-c": ["C11"], "C10-d": ["C11"], "C10-f": ["C14", "C11"], "C15-e": ["C02"],
-        "C18-f": ["C14"], "C19-f": ["C12"]}
+        "C18-f": ["C14"], "C19-f": ["C12"], "C02-g": ["C11", "C10"], "C04-h": ["C12"], "C10-h": ["C11"], "C12-g": ["C14"], "C18-h": ["C12"]}
 
 
 def main():
